@@ -7,6 +7,8 @@ package ast
 /*@
 // the import graph is not rewritten while it is walked
 immutable ast.Module.Imports ast.ImportStmt.Modules []*ast.ImportStmt []*ast.Module
+// ... nor are an import statement's file name and list of names
+immutable ast.ImportStmt.ImportedSymbols ast.ImportStmt.FileName ast.ImportStmt.IsDirectoryImport
 // interface methods that only read the node (trusted: every implementation returns a stored field)
 func (Node).GetRange
   pure
@@ -17,6 +19,10 @@ func (Node).Token
   trusted
 
 func (Declaration).Name
+  pure
+  trusted
+
+func (Declaration).Module
   pure
   trusted
 
@@ -38,6 +44,16 @@ func IterateImportedDecls$1 [C16]
   replay ./src/ast replay_templates/ast_import_order_test.go TestReplayImportOrder :
          aLine = decls[i].GetRange().Start.Line ; aCol = decls[i].GetRange().Start.Column ;
          bLine = decls[j].GetRange().Start.Line ; bCol = decls[j].GetRange().Start.Column
+
+// C10: what an import makes visible. With a list of names, each name is looked up in the export table (PublicDecls)
+// of the one imported module (the first; a directory import has none) and nowhere else (absent there: nil, which the resolver reports); without a list the
+// callback gets declarations under their own names.
+func IterateImportedDecls [C10]
+  requires imprt != nil
+  callsite fun requires len(imprt.ImportedSymbols) != 0 ==> arg0 == arg2.Literal
+  callsite fun requires len(imprt.ImportedSymbols) != 0 && !imprt.IsDirectoryImport && len(imprt.Modules) != 0 && imprt.Modules[0] != nil ==> arg1 == imprt.Modules[0].PublicDecls[arg0]
+  callsite fun requires len(imprt.ImportedSymbols) != 0 && (imprt.IsDirectoryImport || len(imprt.Modules) == 0) ==> arg1 == nil
+  callsite fun requires len(imprt.ImportedSymbols) == 0 ==> arg0 == arg1.Name() && arg2 == imprt.FileName
 
 // a strict weak order that is total on distinct positions makes "collect a map into a slice,
 // then sort" independent of the collection order
